@@ -6,6 +6,18 @@ undefined names at random places.  Each run is a sub-template call of a driver t
 (frame identities, level) before and after and catches the exception.
 Correspondence: results, call traces and every namespace snapshot of the Lean interpreter vs the real classes.
 Oracle: identities of the frames and the level after == before, on the real TemplateDict.
+
+The exit through the recursion guard (String.__call__, level > 200) gets inputs of its own:
+  (A) a family of runaway-recursion programs (cycles of templates x invocation form x enclosing block x who catches), rendered
+      top-level at full depth on the model and on the real classes: the guard must fire at the same level with the same error,
+      every invocation that continues holds the frames it held before, the names of every frame kind are found afterwards;
+  (B) the same family under a Python caller that owns the TemplateDict and stands at a recursion level just below / at / above
+      the threshold (the guard then fires after 0..10 calls, in every member of the cycle and inside every kind of block),
+      with no / one / several clients and keyword arguments;
+  (C) every generated program under such a Python caller, also with template classes whose rendering hooks
+      (ZDocumentTemplate_beforeRender / afterRender) return a value or raise.
+Expected values: object identity of the frames the caller pushed, the level the caller set, and outcomes read off the family's
+parameters (who catches) - nothing is computed by the code under test.
 """
 import json
 
@@ -86,6 +98,500 @@ def tree_leak_probe(res):
                                             len(snaps[-1][0]) if snaps else -1, len(snaps[0][0]) if snaps else -1)})
 
 
+# --------------------------------------------------------------------------- runaway recursion (the recursion guard's exit)
+#
+# A family of structured programs in which templates call each other in a cycle until the engine's recursion guard stops them.
+# Every member of the family is described by a parameter dictionary; `rec_case` builds the program (JSON blocks for the model,
+# DTML source for the real classes) from it:
+#   cycle       number of templates in the cycle (1 = a template calling itself)
+#   globs/vars  per cycle member: does it have constructor defaults / `_vars` of its own (frames it pushes itself)
+#   entry       which member the caller invokes first (decides in which member the guard fires)
+#   form        how the next template is invoked (dtml-var / call / if / unless / in / with / let / return / _['name'])
+#   ctx         the block the invocation sits in (none, with, with mapping, let, in over an object / a string / a mapping,
+#               if, the else block of a try, an except handler, a finally block)
+#   catch       who catches the error: every level itself (except SystemError / bare except), nobody inside (try..finally at
+#               every level), the calling template, the driver template
+#   try_outside whether the per-level dtml-try encloses the context block or sits inside it
+#   fn          every level calls the namespace callable `f` first (fault injection then raises at a chosen depth instead)
+# The driver D (top-level call: keyword arguments, a mapping, a client) calls P (the calling template, with its own context
+# block) which calls the cycle.  D, P and every cycle member probe the namespace before and after the block that contains the
+# call, and after it render names that live in each kind of frame (keyword argument, mapping, client attribute, defaults):
+# a name that has gone raises KeyError and changes the outcome.
+
+REC_FORMS = ['var', 'call', 'if', 'unless', 'in', 'with', 'let', 'ret', 'under', 'callunder']
+REC_CTXS = ['none', 'with', 'withmap', 'let', 'in', 'instr', 'inmap', 'if', 'tryelse', 'handler', 'finally']
+REC_CATCH = ['inner-sys', 'inner-any', 'inner-fin', 'main', 'driver']
+KWV, MAPV, CLV = 'KW', 'MAP', 'CL'
+
+
+def _var(n):
+    return ['var', ['n', n], False, None, None]
+
+
+def _probe():
+    return ['call', ['e', ['call', ['name', 'probe']]]]
+
+
+def rec_call(form, nxt):
+    """the blocks that invoke the template bound to `nxt`"""
+    if form == 'var':
+        return [_var(nxt)]
+    if form == 'call':
+        return [['call', ['n', nxt]]]
+    if form == 'if':
+        return [['cond', [[['n', nxt], [['lit', 'y']]]], [['lit', 'n']]]]
+    if form == 'unless':
+        return [['unless', ['n', nxt], [['lit', 'u']]]]
+    if form == 'in':
+        return [['in', ['n', nxt], {}, [['lit', '.']], [['lit', 'e']]]]
+    if form == 'with':
+        return [['with', ['n', nxt], False, False, [['lit', 'w']]]]
+    if form == 'let':
+        return [['let', [['v1', ['n', nxt]]], [['lit', 'l']]]]
+    if form == 'ret':
+        return [['ret', ['n', nxt]]]
+    if form == 'under':
+        return [['var', ['e', ['under', nxt]], False, None, None]]
+    if form == 'callunder':
+        return [['call', ['e', ['under', nxt]]]]
+    raise ValueError(form)
+
+
+def rec_ctx(ctx, inner):
+    """`inner` placed inside a block of kind `ctx`, followed (inside the block) by a name that only the block's own frame
+    defines; the second value is the text that name renders"""
+    if ctx == 'none':
+        return inner, ''
+    if ctx == 'with':
+        return [['with', ['n', 'o1'], False, False, inner + [_var('oa')]]], 'OA'
+    if ctx == 'withmap':
+        return [['with', ['n', 'm1'], True, False, inner + [_var('ma')]]], 'MA'
+    if ctx == 'let':
+        return [['let', [['v0', ['n', 'kwv']]], inner + [_var('v0')]]], KWV
+    if ctx == 'in':
+        return [['in', ['n', 'seq1'], {}, inner + [_var('oa'), _var('sequence-index')], None]], 'OA0'
+    if ctx == 'instr':
+        return [['in', ['n', 'seqs'], {}, inner + [_var('sequence-item')], None]], 'a'
+    if ctx == 'inmap':
+        return [['in', ['n', 'seqm'], {'mapping': True}, inner + [_var('ma')], None]], 'MA'
+    if ctx == 'if':
+        return [['cond', [[['n', 'flag'], inner + [_var('flag')]]], None]], 'True'
+    if ctx == 'tryelse':
+        return [['try', [['lit', '']], [['', [['lit', 'X']]]], inner]], ''
+    if ctx == 'handler':
+        return [['try', [['raise', 'ValueError', None, [['lit', 'v']]]], [['ValueError', inner + [_var('error_type')]]],
+                 None]], 'ValueError'
+    if ctx == 'finally':
+        return [['tryfin', [['lit', '']], inner]], ''
+    raise ValueError(ctx)
+
+
+def rec_lookups(extra=()):
+    out = [['lit', '<']]
+    for n in ['kwv', 'mapv', 'clv'] + list(extra):
+        out += [_var(n), ['lit', '|']]
+    return out + [['lit', '>']]
+
+
+def rec_expected_lookups(extra_vals=()):
+    return '<' + ''.join(v + '|' for v in [KWV, MAPV, CLV] + list(extra_vals)) + '>'
+
+
+# what a full-depth recursion costs on the real classes differs a lot between the context blocks: an except handler formats a
+# traceback of the whole interpreter stack at every level (seconds per run), and with / let / try blocks at every level use so
+# much of CPython's own stack that it ends before the engine's guard is reached.  The quick tier's full-depth runs therefore
+# draw their context blocks from this list (the handler context only in the thorough tier); the runs under a Python caller,
+# which stands just below the threshold, use all of them
+REC_CTXS_QUICK = ['none', 'none', 'if', 'if', 'instr', 'inmap', 'in', 'with', 'withmap', 'let', 'tryelse', 'finally']
+
+
+def rec_params(r, form=None, catch=None, ctx=None, bare=None, ctxs=REC_CTXS):
+    cycle = r.choice([1, 1, 2, 3])
+    p = {'cycle': cycle,
+         'globs': [r.random() < 0.5 for _ in range(cycle)],
+         'vars': [r.random() < 0.3 for _ in range(cycle)],
+         'entry': r.randrange(cycle),
+         'form': form or r.choice(REC_FORMS),
+         'ctx': ctx or r.choice(ctxs),
+         'pctx': r.choice(ctxs),
+         'pglobs': r.random() < 0.5,
+         'catch': catch or r.choice(REC_CATCH),
+         'try_outside': r.random() < 0.5,
+         'fn': r.random() < 0.5,
+         'clients': r.choice([1, 1, 2])}
+    if bare if bare is not None else r.random() < 0.35:
+        # nothing of its own anywhere in the cycle: the guard fires in a template that has pushed nothing
+        p['globs'] = [False] * cycle
+        p['vars'] = [False] * cycle
+    return p
+
+
+def rec_case(p):
+    """the program of one family member (see above), in the form `interp.run_cases` / `proggen.run_impl` take"""
+    n = p['cycle']
+    names = ['rec%d' % i for i in range(n)]
+    tmpl = []
+    for i in range(n):
+        nxt = names[(i + 1) % n]
+        own = (['rdef%d' % i] if p['globs'][i] else []) + (['rvar%d' % i] if p['vars'][i] else [])
+        call = rec_call(p['form'], nxt)
+        catch = p['catch']
+        if catch == 'inner-sys':
+            wrap = lambda bs: [['try', bs, [['SystemError', [['lit', 'G']] + rec_lookups(own)]], None]]  # noqa
+        elif catch == 'inner-any':
+            wrap = lambda bs: [['try', bs, [['', [['lit', 'G']] + rec_lookups(own)]], None]]  # noqa
+        elif catch == 'inner-fin':
+            wrap = lambda bs: [['tryfin', bs, [['lit', 'F']] + rec_lookups(own)]]  # noqa
+        else:
+            wrap = lambda bs: bs  # noqa
+        if p['try_outside']:
+            mid = wrap(rec_ctx(p['ctx'], call)[0])
+        else:
+            mid = rec_ctx(p['ctx'], wrap(call))[0]
+        blocks = [['lit', 'r%d' % i], _probe()] + ([['call', ['n', 'f']]] if p['fn'] else []) + mid + [_probe()] + \
+            rec_lookups(own)
+        tmpl.append({'blocks': blocks, 'globals': [['rdef%d' % i, {'s': 'RD%d' % i}]] if p['globs'][i] else [],
+                     'vars': [['rvar%d' % i, {'s': 'RV%d' % i}]] if p['vars'][i] else [],
+                     'source': proggen.print_blocks(blocks)})
+    # P: the calling template
+    pcall = rec_call('var', names[p['entry']])
+    if p['catch'] == 'main':
+        pcall = [['try', pcall, [['', [['lit', 'PC']]]], None]]
+    pown = ['pdef'] if p['pglobs'] else []
+    pblocks = [['lit', 'p'], _probe()] + rec_ctx(p['pctx'], pcall)[0] + [_probe()] + rec_lookups(pown)
+    P = {'blocks': pblocks, 'globals': [['pdef', {'s': 'PD'}]] if p['pglobs'] else [], 'vars': [],
+         'source': proggen.print_blocks(pblocks)}
+    dblocks = [_probe(), ['try', [_var('prog')], [['', [['lit', 'CAUGHT']]]], None], _probe()] + rec_lookups()
+    D = {'blocks': dblocks, 'globals': [], 'vars': [], 'source': proggen.print_blocks(dblocks)}
+    obj = {'o': 1, 'a': [['oa', {'s': 'OA'}]]}
+    kw = [['probe', {'f': proggen.PROBE_BASE, 'r': None}], ['prog', {'T': 1}], ['kwv', {'s': KWV}], ['flag', True],
+          ['f', {'f': 1, 'r': {'s': ''}}], ['o1', obj], ['seq1', {'l': [{'o': 2, 'a': [['oa', {'s': 'OA'}]]}]}],
+          ['seqs', {'l': [{'s': 'a'}]}], ['m1', {'d': [['ma', {'s': 'MA'}]]}], ['seqm', {'l': [{'d': [['ma', {'s': 'MA'}]]}]}]]
+    kw += [[nm, {'T': 2 + i}] for i, nm in enumerate(names)]
+    clients = [{'o': 900, 'a': [['clv', {'s': CLV}]]}]
+    if p['clients'] == 2:
+        clients = [{'o': 901, 'a': [['clv', {'s': 'hidden'}], ['cl0', {'s': 'C0'}]]}] + clients
+    return {'templates': [D, P] + tmpl, 'main': 0, 'clients': clients, 'mapping': [['mapv', {'s': MAPV}]], 'kw': kw,
+            'classes': proggen.class_table(), 'denied': [], 'guard': False, 'utf8': True}
+
+
+GUARD_MSG = 'infinite recursion in document template'
+# forms whose outcome, once a level has caught the error and returned a text, is not predicted here (dtml-return ends the
+# caller's rendering, dtml-in refuses a text as its sequence): the frame / level oracle applies, the outcome is not judged
+UNPREDICTED_FORMS = ('ret', 'in')
+STACK_FINDING = 'C08-interpreter-stack-exhaustion-cleanup'
+
+
+def snap_pairs(snap_ids):
+    """the snapshots of one run grouped by recursion level.  In the family every template invocation runs at a level of its
+    own and takes exactly two snapshots, one before and one after the block that contains its call: a level with two
+    snapshots is an invocation that went on after that block, a level with one was left by an exception"""
+    by_level = {}
+    for ids, lv in snap_ids:
+        by_level.setdefault(lv, []).append(ids[:-1])      # without the probe's own dtml-call cache frame
+    return by_level
+
+
+def rec_snap_oracle(snap_ids):
+    bad = []
+    by_level = snap_pairs(snap_ids)
+    for lv in sorted(by_level):
+        s = by_level[lv]
+        if len(s) > 2:
+            bad.append('%d snapshots at recursion level %d: the level counter was not restored somewhere below' % (len(s), lv))
+        elif len(s) == 2 and s[0] != s[1]:
+            bad.append('at recursion level %d the namespace holds %d frames after the block with the call, %d before (or '
+                       'different / reordered frames)' % (lv, len(s[1]), len(s[0])))
+    return bad, by_level
+
+
+def rec_p_output(p):
+    """what the calling template P renders when it catches the error itself (plain reading of its source: the literal,
+    the handler's literal, the name of its context block, its lookups)"""
+    return 'pPC' + rec_ctx(p['pctx'], [])[1] + rec_expected_lookups(['PD'] if p['pglobs'] else [])
+
+
+def rec_oracle(p, impl, fault=None):
+    """what the property says about one top-level run of a family member: every invocation that continued holds the frames
+    it held before; the driver catches everything and finds the names of every frame kind afterwards; who else had to
+    continue follows from who catches"""
+    bad, by_level = rec_snap_oracle(impl['snap_ids'])
+    res = impl['result']
+    if len(by_level.get(1, [])) != 2:
+        bad.append('the driver template did not reach its second probe: %r' % (res,))
+    depth = max(by_level) if by_level else 0
+    closed = sorted(lv for lv in by_level if len(by_level[lv]) == 2)
+    tail = rec_expected_lookups()
+    out = res.get('ok', {}).get('s') if isinstance(res.get('ok'), dict) else None
+    if out is None:
+        bad.append('the driver template catches everything, yet the call ended with %r' % (res,))
+        return bad
+    if not out.endswith(tail):
+        bad.append('names of the keyword / mapping / client frames are not rendered after the caught error: %r' % out[-60:])
+    if fault is None and impl['max_level'] <= 200:
+        # the interpreter's own stack ran out before the engine's guard: RecursionError is raised wherever the stack happens to
+        # end, also inside handlers - who continues is not determined by the program; the rest of the oracle applies
+        return bad
+    catch = p['catch']
+    # a fault injected at some depth is an ordinary exception: caught where SystemError is, except by `except SystemError`.
+    # It is raised by the callable a level invokes BEFORE its own dtml-try: the level above catches it (if there is one)
+    if catch in ('driver', 'inner-fin') or (fault is not None and (catch == 'inner-sys' or (catch == 'inner-any' and fault == 0))):
+        if out != 'CAUGHT' + tail:
+            bad.append('only the driver catches: expected %r, got %r' % ('CAUGHT' + tail, out[:80]))
+        if closed != [1]:
+            bad.append('only the driver continues, but levels %r took a second snapshot' % (closed[:6],))
+    elif catch == 'main':
+        if out != rec_p_output(p) + tail:
+            bad.append('the calling template catches: expected %r, got %r' % (rec_p_output(p) + tail, out[:80]))
+        if closed != [1, 2]:
+            bad.append('driver and calling template continue, but levels %r took a second snapshot' % (closed[:6],))
+    elif p['form'] not in UNPREDICTED_FORMS:
+        # every level catches for itself: the deepest invocation continues, and so does everybody above it
+        if 'CAUGHT' in out:
+            bad.append('every level catches for itself, yet the error reached the driver: %r' % out[:80])
+        if len(closed) != (depth if fault is None else depth - 1):
+            bad.append('%d of %d levels continued after the caught error' % (len(closed), depth))
+    return bad
+
+
+def rec_compare(impl, m):
+    """correspondence for the family: the same comparison as for every program, but the depth of the recursion is part of
+    what is compared (the guard must fire at the same level, with the same error), not a reason to leave the run out.
+    Runs in which CPython's own stack ended first (no model can exhibit that) are outside."""
+    if impl['max_level'] <= 200 and impl['max_level'] > 40:
+        return 'oom'
+    ires, mres = impl['result'], m['result']
+    if 'raise' in ires and 'raise' in mres and (ires['raise'], ires['msg']) != (mres['raise'], mres['msg']):
+        return 'exception: impl %s %r, model %s %r' % (ires['raise'], ires['msg'], mres['raise'], mres['msg'])
+    lite = dict(impl)
+    lite['max_level'] = 0
+    return interp.compare(lite, m)
+
+
+# --------------------------------------------------------------------------- a Python caller holding the namespace
+#
+# The property's second kind of caller: Python code that owns a TemplateDict, calls a template with it as the mapping and goes
+# on using it.  The caller decides what is on the namespace, at which recursion level it stands (a template called from deep
+# inside an application: the guard then fires after a few calls, in whatever template and block the program is in at that
+# moment), which client(s) and keyword arguments it passes, and which template class it uses (classes may override the two
+# rendering hooks of String.__call__).  Oracle: the list of frames the caller pushed is, object for object, what the
+# namespace holds afterwards, and the level is what the caller set - whatever the call did.
+
+class HookError(Exception):
+    pass
+
+
+HOOKS = [None, 'before-value', 'before-raise', 'after-raise', 'before-return-none']
+
+
+def build_world(case, faults=(), fault_cls='ValueError', hook=None):
+    """the objects of a case (templates with their defaults, clients, mapping, keyword arguments), built from its JSON form
+    the way proggen.run_impl builds them; `hook` = (template index, behaviour of its rendering hooks)"""
+    from DocumentTemplate import HTML
+    world = proggen.World(faults, proggen.CLASSES[fault_cls][0])
+
+    class Hooked(HTML):
+        hook_mode = None
+
+        def __call__(self, client=None, mapping=None, **kw):
+            lv = getattr(mapping, 'level', 0) if mapping is not None else 0
+            if isinstance(lv, int) and lv > world.max_level:
+                world.max_level = lv
+            return HTML.__call__(self, client, mapping, **kw)
+
+        def ZDocumentTemplate_beforeRender(self, md, default):
+            if self.hook_mode == 'before-value':
+                return 'HOOKED'
+            if self.hook_mode == 'before-return-none':
+                return None
+            if self.hook_mode == 'before-raise':
+                raise HookError('before')
+            return default
+
+        def ZDocumentTemplate_afterRender(self, md, result):
+            if self.hook_mode == 'after-raise':
+                raise HookError('after')
+    templates = [Hooked(t['source']) for t in case['templates']]
+    for i, (t, tj) in enumerate(zip(templates, case['templates'])):
+        t.globals = {k: proggen.to_py(world, v, templates) for k, v in tj['globals']}
+        t._vars = {k: proggen.to_py(world, v, templates) for k, v in tj['vars']}
+        if hook and hook[0] == i:
+            t.hook_mode = hook[1]
+    clients = [proggen.to_py(world, c, templates) for c in case['clients']]
+    mapping = {k: proggen.to_py(world, v, templates) for k, v in case['mapping']}
+    kw = {k: proggen.to_py(world, v, templates) for k, v in case['kw']}
+    return world, templates, clients, mapping, kw
+
+
+CALL_CLIENTS = ['none', 'one', 'two', 'empty']
+
+
+def py_call(case, index, level0, call_client='none', call_kw=False, faults=(), fault_cls='ValueError', hook=None):
+    """call template `index` of the case the way a Python caller does that holds the namespace"""
+    import sys
+    from DocumentTemplate._DocumentTemplate import InstanceDict, TemplateDict
+    if sys.getrecursionlimit() < 20000:
+        sys.setrecursionlimit(20000)
+    world, templates, clients, mapping, kw = build_world(case, faults, fault_cls, hook)
+    md = TemplateDict()
+    md.guarded_getattr = None
+    md.guarded_getitem = None
+    held = [mapping] + [InstanceDict(c, md) for c in clients] + [kw]
+    for f in held:
+        md._push(f)
+    md.level = level0
+    extra = [proggen.Obj(950 + i, {'extra%d' % i: 'E%d' % i}) for i in range(2)]
+    client = {'none': None, 'one': extra[0], 'two': tuple(extra), 'empty': ()}[call_client]
+    ckw = {'callkw': 'CK'} if call_kw else {}
+    try:
+        out = templates[index](client, md, **ckw)
+        res = {'ok': out}
+    except RecursionError:
+        res = {'raise': 'RecursionError', 'msg': ''}
+    except Exception as e:  # noqa
+        res = {'raise': type(e).__name__, 'msg': proggen.exc_msg(e)}
+    after = list(md._data)
+    bad = []
+    if len(after) != len(held) or any(x is not y for x, y in zip(after, held)):
+        bad.append('the caller pushed %d frames; after the call the namespace holds %d (or different / reordered frames)' % (
+            len(held), len(after)))
+    if md.level != level0:
+        bad.append('the caller set recursion level %r; after the call it is %r' % (level0, md.level))
+    return {'result': res, 'bad': bad, 'snap_ids': world.snap_ids, 'max_level': world.max_level, 'calls': world.calls}
+
+
+def rec_py_oracle(p, level0, run, fault=None):
+    """family member called by a Python caller (template P) at recursion level `level0`"""
+    bad = list(run['bad'])
+    bad += rec_snap_oracle(run['snap_ids'])[0]
+    res = run['result']
+    if fault is not None:
+        return bad
+    guard = {'raise': 'SystemError', 'msg': GUARD_MSG}
+    catch = p['catch']
+    # level0 > 200: the guard fires in the called template itself; level0 == 200: in the first template it calls (no
+    # cycle member is ever entered, so only the calling template can catch)
+    if level0 > 200 or catch in ('driver', 'inner-fin') or (level0 == 200 and catch != 'main'):
+        if res != guard:
+            bad.append('nobody below the caller catches the guard\'s error: expected %r, got %r' % (guard, res))
+    elif catch == 'main':
+        if res != {'ok': rec_p_output(p)}:
+            bad.append('the calling template catches: expected %r, got %r' % (rec_p_output(p), res))
+    elif p['form'] not in UNPREDICTED_FORMS:
+        tail = rec_expected_lookups(['PD'] if p['pglobs'] else [])
+        if not (isinstance(res.get('ok'), str) and res['ok'].endswith(tail)):
+            bad.append('every level catches for itself and the calling template renders its names afterwards: expected '
+                       '…%r, got %r' % (tail, res))
+    return bad
+
+
+def rec_family(res, r, tier):
+    """(A) top-level renderings of family members, model and real classes; (B) the same members under a Python caller that
+    stands at a recursion level just below / at / above the guard's threshold"""
+    n_top = 10 if tier == 'quick' else 200
+    n_py = 1000 if tier == 'quick' else 20000
+    # (A) every invocation form x who catches, the other parameters random; in the quick tier a sample of the grid
+    grid = [(f, c) for f in REC_FORMS for c in REC_CATCH]
+    r.shuffle(grid)
+    ctxs = REC_CTXS_QUICK if tier == 'quick' else REC_CTXS
+    ps = [rec_params(r, form=f, catch=c, ctxs=ctxs) for f, c in (grid * (1 + n_top // len(grid)))[:n_top]]
+    cases = [rec_case(p) for p in ps]
+    plans = [((), 'ValueError')] * len(cases)
+    # ... and some of them with an ordinary exception raised at some depth instead (needs the per-level callable)
+    for p, c in list(zip(ps, cases))[:max(2, n_top // 4)]:
+        if p['fn']:
+            ps.append(p)
+            cases.append(c)
+            plans.append(((r.choice([0, 1, 2, 5, 30]),), r.choice(FAULT_CLASSES)))
+    params_of = {id(c): p for p, c in zip(ps, cases)}
+    for (c, plan, impl, m) in interp.run_cases(res, cases, plans):
+        p = params_of[id(c)]
+        res.evaluations += 1
+        fault = plan[0][0] if plan[0] else None
+        desc = {'family': 'runaway recursion, top-level rendering', 'params': p, 'faults': list(plan[0]),
+                'fault_cls': plan[1], 'templates': [t['source'] for t in c['templates']]}
+        res.count('recursion_family_top')
+        res.count('recursion_stopped_by=%s' % ('fault' if fault is not None else 'guard' if impl['max_level'] > 200
+                                                 else 'interpreter stack'))
+        stack_ended = fault is None and impl['max_level'] <= 200
+        for f in rec_oracle(p, impl, fault):
+            if stack_ended:
+                # the interpreter's own stack ended before the engine's guard (CPython 3.12: near 125-190 nested template
+                # calls, depending on the blocks per level): the clean-up code itself then fails - a finding, see
+                # known_findings.json; exactly these runs are left out
+                res.known_hits.setdefault(STACK_FINDING, {'params': p, 'templates': desc['templates'], 'what': f})
+                res.count('stack_exhaustion_runs_with_leak')
+                break
+            res.oracle_fail.append({'case': desc, 'what': f})
+        res.nt(('rec-top', json.dumps(p, sort_keys=True), plan[0]))
+        if m is not None:
+            d = rec_compare(impl, m)
+            if d == 'oom':
+                res.count('outside_model')
+                continue
+            res.corr_checked += 1
+            if d:
+                res.corr_mismatch.append({'case': desc, 'impl': impl['result'], 'model': m['result'], 'diff': d})
+    # (B)
+    for i in range(n_py):
+        p = rec_params(r, form=REC_FORMS[i % len(REC_FORMS)], catch=REC_CATCH[(i // len(REC_FORMS)) % len(REC_CATCH)])
+        c = rec_case(p)
+        level0 = r.choice([201, 200, 200, 199, 199, 198, 197, 196, 190, 500])
+        # mostly the calling template P; sometimes a member of the cycle directly
+        index = 1 if r.random() < 0.8 else 2 + r.randrange(p['cycle'])
+        cc = r.choice(CALL_CLIENTS)
+        ckw = r.random() < 0.3
+        fault = None
+        if p['fn'] and r.random() < 0.15:
+            fault = r.randrange(3)
+        run = py_call(c, index, level0, cc, ckw, faults=() if fault is None else (fault,), fault_cls=r.choice(FAULT_CLASSES))
+        res.evaluations += 1
+        res.count('recursion_family_python_caller')
+        if run['max_level'] > 200:
+            res.count('python_caller_guard_fired')
+        res.nt(('rec-py', json.dumps(p, sort_keys=True), index, level0, cc, ckw, fault))
+        bad = rec_py_oracle(p, level0, run, fault) if index == 1 else run['bad'] + rec_snap_oracle(run['snap_ids'])[0]
+        for f in bad:
+            res.oracle_fail.append({'case': {'family': 'runaway recursion, Python caller holding the namespace', 'params': p,
+                                             'called': index, 'level': level0, 'client': cc, 'keyword': ckw, 'fault': fault,
+                                             'templates': [t['source'] for t in c['templates']]},
+                                    'what': f, 'result': run['result']})
+
+
+def python_caller(res, r, base, tier):
+    """(C) every generated program under a Python caller: its main template (and its sub-template) called with a namespace the
+    caller holds, at recursion levels around the guard's threshold, with one / several / no clients and keyword arguments,
+    with and without an injected fault, with template classes whose rendering hooks return or raise"""
+    # (never more than ~30 template calls below the caller: the interpreter's own stack must not be what ends the recursion)
+    levels = [170, 190, 197, 198, 199, 200, 201, 202]
+    per = 5 if tier == 'quick' else 12
+    for c in base:
+        for _ in range(per):
+            level0 = r.choice(levels[2:]) if r.random() < 0.85 else r.choice(levels[:2])
+            index = 1 if r.random() < 0.8 else 2
+            hook = None
+            if r.random() < 0.25:
+                hook = (r.choice([1, 2]), r.choice(HOOKS[1:]))
+            faults = (r.randrange(4),) if r.random() < 0.3 else ()
+            cc = r.choice(CALL_CLIENTS)
+            ckw = r.random() < 0.3
+            fc = r.choice(FAULT_CLASSES)
+            run = py_call(c, index, level0, cc, ckw, faults=faults, fault_cls=fc, hook=hook)
+            res.evaluations += 1
+            res.count('python_caller')
+            if run['max_level'] > 200:
+                res.count('python_caller_guard_fired')
+            if hook:
+                res.count('python_caller_hook=%s' % hook[1])
+            if run['max_level'] > 200 or hook or (faults and run['calls'] > faults[0]):
+                res.nt(('py', c['templates'][1]['source'], index, level0, cc, ckw, faults, hook))
+            for f in run['bad']:
+                res.oracle_fail.append({'case': {'python_caller': True, 'program': interp.brief(c), 'template': index,
+                                                 'level': level0, 'client': cc, 'keyword': ckw, 'faults': list(faults),
+                                                 'fault_cls': fc, 'hook': hook},
+                                        'what': f, 'result': run['result']})
+
+
 def run(res, tier, have_driver):
     r = common.rng('C08')
     res.have_driver = have_driver
@@ -93,7 +599,18 @@ def run(res, tier, have_driver):
                 'names inside every block kind), each run with no fault and with the k-th callable invocation raising for '
                 'every k < N (N = invocation points of the fault-free run), plus random pairs of faults, exception classes '
                 'ValueError / KeyError / E2 / TypeError; non-trivial = distinct (program, fault plan) where a fault actually '
-                'fired or a return/raise was executed inside a block')
+                'fired or a return/raise was executed inside a block.  Runaway recursion (the exit through the recursion guard): a '
+                'family of structured programs - cycles of 1-3 templates with / without defaults and _vars of their own, the next '
+                'template invoked through var / call / if / unless / in / with / let / return / _[name], from inside every kind of '
+                'block (with, with mapping, let, in over objects / strings / mappings, if, try-else, except handler, finally), '
+                'the error caught by every level itself (except SystemError / bare except) / passed through try..finally at every '
+                'level / caught by the calling template / by the driver - (A) rendered top-level at full depth on model and real '
+                'classes (guard level and message compared), (B) called by a Python caller that holds the TemplateDict and stands '
+                'at recursion level 190..201 / 500, with no / one / two / an empty tuple of clients and keyword arguments, '
+                'optionally with an ordinary fault at some depth; every invocation snapshots the namespace before and after the '
+                'block with the call, names of every frame kind are rendered after the catch, the outcome is predicted from who '
+                'catches.  (C) every generated program (main and sub-template) under such a Python caller at levels 170..202, '
+                'with faults and with template classes whose before/after rendering hooks return a value / None / raise')
     n_prog = 250 if tier == 'quick' else 3000
     cases, plans = [], []
     base = [proggen.wrap_case(proggen.gen_case(r, r.choice([2, 3, 3]), robust=r.random() < 0.7)) for _ in range(n_prog)]
@@ -135,9 +652,13 @@ def run(res, tier, have_driver):
         res.sample({'program': c['templates'][1]['source'][:400], 'faults': list(plan[0]), 'fault_cls': plan[1],
                     'impl_result': impl['result'], 'snapshots_before_after': [impl['snap_ids'][0][1], impl['snap_ids'][-1][1]]
                     if len(impl['snap_ids']) >= 2 else None})
+    rec_family(res, common.rng('C08-rec'), tier)
+    python_caller(res, common.rng('C08-py'), base, tier)
     tree_leak_probe(res)
     res.partial.append('dtml-tree is outside the interpreter model: its push/pop sites (tpRender, tpRenderTABLE, get_items) '
                        'are covered by the fault-injection oracle only')
+    res.partial.append('renderings in which CPython\'s own stack ends before the engine\'s recursion guard (RecursionError inside '
+                       'clean-up code) are a known finding and outside the family\'s oracle / correspondence')
     res.assumptions += ['the interpreter model (Render.lean) is validated, not verified, against the real classes: results, '
                         'call traces and namespace snapshots taken by probe callables inside the blocks are compared',
                         'an InstanceDict\'s attribute cache is not part of the namespace identity (theorem: erase)']
@@ -155,8 +676,18 @@ def search_more(res, tier):
             impl = proggen.run_impl(c, (k,), r.choice(FAULT_CLASSES))
             for f in oracle(impl):
                 found.append({'case': {'program': interp.brief(c), 'faults': [k]}, 'what': f})
+        for _ in range(4):
+            run = py_call(c, r.choice([1, 1, 2]), r.choice([190, 198, 199, 200, 201]),
+                          r.choice(CALL_CLIENTS), r.random() < 0.3, faults=(r.randrange(4),) if r.random() < 0.3 else (),
+                          hook=(r.choice([1, 2]), r.choice(HOOKS[1:])) if r.random() < 0.25 else None)
+            for f in run['bad']:
+                found.append({'case': {'python_caller': True, 'program': interp.brief(c)}, 'what': f})
         if len(found) > 3:
             break
+    if not found:
+        res2.have_driver = False
+        rec_family(res2, r, 'quick')
+        found += res2.oracle_fail[:4]
     return found
 
 
